@@ -362,6 +362,17 @@ func partBC(r *mc.Run, only string) {
 	items = append(items, genFloatItems()...)
 	items = append(items, genConvItems(convTypes)...)
 	items = append(items, genWideItems(r.Thorough())...)
+	if f := os.Getenv("C15_GROUPS"); f != "" {
+		// debugging aid: restrict parts (b)/(c) to the groups whose name contains the substring
+		var sel []bitem
+		for _, it := range items {
+			if strings.Contains(it.Group, f) {
+				sel = append(sel, it)
+			}
+		}
+		items = sel
+		r.Cap("C15_GROUPS filter " + f)
+	}
 	r.Bound("bc_declarations", len(items))
 
 	// group
@@ -495,7 +506,7 @@ func partBC(r *mc.Run, only string) {
 			}
 			got := waValue(w, it.WantKind)
 			if got != it.Want {
-				r.Report("C15|"+it.Key+"|checker-value-vs-exact", fmt.Sprintf("%s: the checker folds `%s` to %s (%s), exact arithmetic and go/types give %s", it.Desc, it.Decl, got, w.Exact, it.Want),
+				r.Report("C15|"+it.vkey()+"|checker-value-vs-exact", fmt.Sprintf("%s: the checker folds `%s` to %s (%s), exact arithmetic and go/types give %s", it.Desc, it.Decl, got, w.Exact, it.Want),
 					map[string]any{"decl": it.Decl, "group": g.name})
 				continue
 			}
@@ -571,7 +582,7 @@ func partBC(r *mc.Run, only string) {
 			pgroups[it.Group] = g
 			order = append(order, it.Group)
 		}
-		g.Items = append(g.Items, progs.Item{Key: it.Key + "|run", Desc: it.Desc, Stmts: strings.ReplaceAll(strings.ReplaceAll(it.RunStmts, "@C@", "c"), "@ID@", strconv.Itoa(i))})
+		g.Items = append(g.Items, progs.Item{Key: it.vkey() + "|run", Desc: it.Desc, Stmts: strings.ReplaceAll(strings.ReplaceAll(it.RunStmts, "@C@", "c"), "@ID@", strconv.Itoa(i))})
 		nrun++
 	}
 	for _, name := range order {
@@ -628,15 +639,22 @@ func partBC(r *mc.Run, only string) {
 		rep := map[string]any{"stmts": strings.ReplaceAll(it.RunStmts, "@C@", "c"), "go": g.Out, "wa": w.Out}
 		switch {
 		case wc != it.RunWant:
-			r.Report("C15|"+it.Key+"|compiled-const-vs-exact", fmt.Sprintf("%s: the compiled program prints %s for the constant, exact arithmetic and Go give %s (run-time form prints %s)", it.Desc, wc, it.RunWant, wrt), rep)
+			r.Report("C15|"+it.vkey()+"|compiled-const-vs-exact", fmt.Sprintf("%s: the compiled program prints %s for the constant, exact arithmetic and Go give %s (run-time form prints %s)", it.Desc, wc, it.RunWant, wrt), rep)
 		case wrt != grt && it.SameRT:
-			r.Report("C15|"+it.Key+"|const-vs-runtime", fmt.Sprintf("%s: constant %s (= exact) but the run-time form prints %s (Go: %s)", it.Desc, wc, wrt, grt), rep)
+			r.Report("C15|"+it.vkey()+"|const-vs-runtime", fmt.Sprintf("%s: constant %s (= exact) but the run-time form prints %s (Go: %s)", it.Desc, wc, wrt, grt), rep)
 		case wrt != grt:
-			r.Report("C15|"+it.Key+"|runtime-vs-go", fmt.Sprintf("%s: constant %s (= exact); the run-time form prints %s, Go prints %s", it.Desc, wc, wrt, grt), rep)
+			r.Report("C15|"+it.vkey()+"|runtime-vs-go", fmt.Sprintf("%s: constant %s (= exact); the run-time form prints %s, Go prints %s", it.Desc, wc, wrt, grt), rep)
 		}
 		return true
 	}
 	progs.Run(r, pool, fams, progs.Options{CasesPerProgram: mc.Pick(r, 6, 6), KeyPrefix: "C15", Compare: cmp})
+}
+
+func (it *bitem) vkey() string {
+	if it.Cls == "" {
+		return it.Key
+	}
+	return it.Key + "|" + it.Cls
 }
 
 func goDeviates(it *bitem) bool {
